@@ -734,6 +734,10 @@ func c0203(prop string, args []string) int {
 				continue
 			}
 			sig := fmt.Sprintf("%s|%s|what=%s|kind=%s|field=%s|value=%s|path=%s", prop, v.Clause, v.Key, kind, field, class, path)
+			if j.Op < 0 {
+				// unmodified history: the history is the identity of the case
+				sig = fmt.Sprintf("%s|%s|what=%s|history=%s", prop, v.Clause, v.Key, j.Scn)
+			}
 			if seen[sig] {
 				continue
 			}
